@@ -108,6 +108,7 @@ def run(chk):
     chk.section("instantiate_partial", lambda: s3(chk))
     chk.section("compile_variable_idx", lambda: s4(chk))
     chk.section("method-parameters", lambda: s5(chk))
+    chk.section("mono-args-scope", lambda: s6(chk))
     chk.expected_min_obligations = 60
     chk.assumptions += [
         "parameter lists of length <= 3 and instantiations of length <= 3 are enumerated (list lengths are a bound; the leaves substituted are arbitrary objects, de Bruijn indices in S2/S4 are symbolic)",
@@ -538,6 +539,41 @@ def s5(chk):
                 return z3.BoolVal(ok)
             chk.prove_paths(f"handle_implicit_self_arg[struct-params={k},method-params={m}]:inherited-keep-0..k-1/\\own-move-to-k+j/\\indices-dense-and-distinct/\\self==struct[own-params-in-order]", e.explore(t), post,
                             func=f"{FC}:handle_implicit_self_arg", replay=(lambda m__: {"script": REPLAY_METHOD, "input": {}}) if (k, m) in ((2, 1), (1, 2)) else None)
+    chk.use_engine(e)
+
+
+def s6(chk):
+    """S6 — CompilerContext.set_monomorphized_args (compiler/core.py): the partial monomorphization of
+    the function being compiled is a SCOPED setting: visible inside the `with`, and on exit the
+    previous value is back — also when scopes nest (a library function loaded as a value while a
+    generic function body is being compiled).  type_var_to_hugr / const_var_to_hugr /
+    compile_variable_idx (S4) read it for every later occurrence of a parameter in that body."""
+    CC = "guppylang_internals.compiler.core"
+    e = mk_engine(chk)
+    e.func_info(CC, "CompilerContext.set_monomorphized_args")
+    m = e.module(CC)
+    for outer in ("None", "M0"):
+        for depth in (1, 2, 3):
+            def t(it, outer=outer, depth=depth):
+                CCx = it.lookup_global(m, "CompilerContext")
+                ctx = SObj(CCx, {"current_mono_args": None if outer == "None" else "M0"})
+                log = []
+                src = ""
+                for d in range(depth):
+                    src += "    " * d + f"with ctx.set_monomorphized_args('M{d + 1}'):\n" + "    " * (d + 1) + "log.append(('in', ctx.current_mono_args))\n"
+                for d in reversed(range(depth)):
+                    src += "    " * d + "log.append(('after', ctx.current_mono_args))\n"
+                it.exec_snippet(m, src, {"ctx": ctx, "log": log})
+                return log
+
+            def post(p, outer=outer, depth=depth):
+                if p.kind != "return":
+                    return z3.BoolVal(False)
+                o = None if outer == "None" else "M0"
+                want = [("in", f"M{d + 1}") for d in range(depth)] + [("after", f"M{d}" if d > 0 else o) for d in reversed(range(depth))]
+                return z3.BoolVal(p.value == want)
+            chk.prove_paths(f"set_monomorphized_args[previous={outer},nesting={depth}]:value-visible-inside/\\previous-value-restored-on-exit-of-every-level", e.explore(t), post,
+                            func=f"{CC}:CompilerContext.set_monomorphized_args")
     chk.use_engine(e)
 
 
